@@ -612,7 +612,13 @@ class Helper:
                       and isinstance(k.value, ast.Name) and k.value.id == self.kwname]
             uses = [n for n in _walk_fn(fn) if isinstance(n, ast.Name) and n.id == self.kwname]
             kw_ok = len(uses) == len(splats) and bool(splats)
-        self.simple = not (a.vararg or a.posonlyargs) and kw_ok and not fn.decorator_list and isinstance(fn, ast.FunctionDef)
+        # a `*rest` parameter is supported when the body only reads it (the surplus positional arguments become a tuple)
+        self.varname = a.vararg.arg if a.vararg else None
+        var_ok = True
+        if self.varname:
+            var_ok = not any(isinstance(n, ast.Name) and n.id == self.varname and isinstance(n.ctx, (ast.Store, ast.Del)) for n in _walk_fn(fn)) \
+                and not a.kwonlyargs
+        self.simple = var_ok and not a.posonlyargs and kw_ok and not fn.decorator_list and isinstance(fn, ast.FunctionDef)
         self.params = [x.arg for x in a.args] + [x.arg for x in a.kwonlyargs]
         self.defaults = {}
         for p, d in zip(reversed(a.args), reversed(a.defaults)):
@@ -642,9 +648,28 @@ class Helper:
                 raise NotInlineable("method without self")
             mapping[params[0]] = recv
             params = params[1:]
+        npos = len(self.fn.args.args) - (1 if method else 0)
+        if self.varname:
+            # surplus positional arguments (a starred display / `.values()` of a dict display is spelled out) form the tuple
+            fixed, rest = args[:npos], []
+            if any(isinstance(a, ast.Starred) for a in fixed):
+                raise NotInlineable("star arguments")
+            for a in args[npos:]:
+                if isinstance(a, ast.Starred):
+                    v = a.value
+                    if isinstance(v, (ast.Tuple, ast.List)) and not any(isinstance(x, ast.Starred) for x in v.elts):
+                        rest.extend(v.elts)
+                    elif isinstance(v, ast.Call) and isinstance(v.func, ast.Attribute) and v.func.attr == "values" and not v.args \
+                            and isinstance(v.func.value, ast.Dict) and all(k is not None for k in v.func.value.keys):
+                        rest.extend(v.func.value.values)
+                    else:
+                        raise NotInlineable("star arguments")
+                else:
+                    rest.append(a)
+            mapping[self.varname] = ast.Tuple(elts=[copy.deepcopy(x) for x in rest], ctx=ast.Load())
+            args = fixed
         if any(isinstance(a, ast.Starred) for a in args) or (any(k.arg is None for k in call.keywords) and not self.kwname):
             raise NotInlineable("star arguments")
-        npos = len(self.fn.args.args) - (1 if method else 0)
         if len(args) > npos:
             raise NotInlineable("too many positional arguments")
         for p, a in zip(params, args):
@@ -2461,6 +2486,24 @@ def normalise(tree, modname, shape_all=None, keep=frozenset()):
                 total += k
             if total:
                 log["conditionals"][q] = total
+    # a second round: substitutions above may have turned a call into an inlineable one (`f(*table.values())` with the table
+    # a local that has been substituted by now)
+    if log["substituted"] or log["inlined"]:
+        again = sorted(set(inline_helpers(tree, shape, keep)))
+        if again:
+            log["inlined"] = sorted(set(log["inlined"]) | set(again))
+            _Recompile().visit(tree)
+            ast.fix_missing_locations(tree)
+            for q, fn in functions_of(tree).items():
+                pinned = shape["functions"].get(q)
+                if pinned is None:
+                    continue
+                new_locals = fn_locals(fn) - set(pinned["locals"])
+                if new_locals:
+                    forward_substitute(fn, new_locals)
+                if pinned.get("ifexp", 0) == 0:
+                    while split_conditionals(fn):
+                        pass
     k = name_reraises(tree)
     if k:
         log["reraises"] = k
